@@ -115,24 +115,16 @@ def extract_scatter(effs, target):
 
 
 def is_max_fold(t, value_attr, init=0):
-    """max over all pairs of pair.<value_attr> (init when empty), in any of:
-       accumulate-if-greater loop, m = max(m, x) loop, max(comprehension, default=init)."""
-    if t[0] == 'accum' and t[1] == C(init) and len(t[2]) == 1:
-        op, idx, val, ch = t[2][0]
-        ap = all_pairs_chain(ch)
-        if op == 'assign' and ap:
-            elem, rows, g = ap
-            v = A(elem, value_attr)
-            if val == v and g[0] == 'cmp' and ((g[1] == 'Gt' and g[2] == v and g[3][0] == 'carried') or (g[1] == 'Lt' and g[3] == v and g[2][0] == 'carried')):
-                return True
-            if g == TRUE and val[0] == 'call' and val[1] == S('max') and len(val[2]) == 2 and v in val[2] and any(x[0] == 'carried' for x in val[2]):
-                return True
-    if t[0] == 'call' and t[1] == S('max') and len(t[2]) == 1 and dict(t[3]).get('default') == C(init):
-        sp = t[2][0]
-        if sp[0] == 'comp':
-            ap = all_pairs_chain(sp[1])
-            if ap and ap[2] == TRUE and sp[2] == A(ap[0], value_attr):
-                return True
+    """max over all pairs of pair.<value_attr> (init when empty), in any of: accumulate-if-greater loop, m = max(m, x)
+    loop, max(comprehension, default=init), max([init] + comprehension) ... (canonical aggregate algebra)."""
+    from .canon import canon
+    if init != 0:
+        return False
+    c = canon(t)
+    if c[0] == 'max0':
+        ap = all_pairs_chain(c[1])
+        if ap and ap[2] == TRUE and c[2] == A(ap[0], value_attr):
+            return True
     return False
 
 
